@@ -29,6 +29,7 @@ var unkeyedRe = regexp.MustCompile(`^(.*?[^/\[]+)\[#(\d+)\](.*)$`)
 type mergeModel struct {
 	Conflicts     []string // classes of conflicts found
 	LeafConflicts []string // paths of scalar-leaf conflicts
+	OrderedAt     []string // paths of the ordered lists behind the ordered-list-* conflict classes
 	Want          *lib.Obs
 }
 
@@ -204,9 +205,11 @@ func buildMergeModel(a, b *lib.Obs, overwrite bool) *mergeModel {
 			}
 			if !ok {
 				m.Conflicts = append(m.Conflicts, "ordered-list-order-conflict")
+				m.OrderedAt = append(m.OrderedAt, lp)
 			}
 		default:
 			m.Conflicts = append(m.Conflicts, "ordered-list-partial-overlap")
+			m.OrderedAt = append(m.OrderedAt, lp)
 		}
 	}
 	return m
@@ -300,18 +303,40 @@ func c05Pair(r *lib.Run, cfg *lib.Cfg, idx int, mk func() (ygot.GoStruct, ygot.G
 		for _, c := range model.Conflicts {
 			cl[c] = true
 		}
-		if len(cl) == 1 {
+		// the key-representation note of the node behind each class (wrapper-union keys are
+		// pointers: entries with equal keys are never recognised as the same entry)
+		noteOf := func(c string) string {
 			note := ""
-			for _, lp := range model.LeafConflicts {
-				if l := oa.Leaves[lp]; l != nil {
-					note = cfg.KeyNote(l.Elems)
+			switch {
+			case strings.HasPrefix(c, "leaf-conflict"):
+				for _, lp := range model.LeafConflicts {
+					if l := oa.Leaves[lp]; l != nil {
+						if n := cfg.KeyNote(l.Elems); n != "" {
+							note = n
+						}
+					}
+				}
+			case strings.HasPrefix(c, "ordered-list"):
+				for _, lp := range model.OrderedAt {
+					for _, o := range []*lib.Obs{oa, ob} {
+						for p, l := range o.Leaves {
+							if strings.HasPrefix(p, lp+"[") {
+								if n := cfg.KeyNote(l.Elems); n != "" {
+									note = n
+								}
+							}
+						}
+					}
 				}
 			}
-			r.Violate("conflict-not-detected", confClass()+note, "MergeStructs succeeded although the inputs conflict: "+confClass(), w(map[string]interface{}{"conflicts": model.Conflicts, "leaf_conflicts": model.LeafConflicts}))
+			return note
+		}
+		if len(cl) == 1 {
+			r.Violate("conflict-not-detected", confClass()+noteOf(confClass()), "MergeStructs succeeded although the inputs conflict: "+confClass(), w(map[string]interface{}{"conflicts": model.Conflicts, "leaf_conflicts": model.LeafConflicts}))
 		} else {
 			r.Hit("multi-class-conflict-undetected")
 			for c := range cl {
-				r.Violate("conflict-not-detected", c, "MergeStructs succeeded although the inputs conflict: "+c, w(map[string]interface{}{"conflicts": model.Conflicts, "leaf_conflicts": model.LeafConflicts}))
+				r.Violate("conflict-not-detected", c+noteOf(c), "MergeStructs succeeded although the inputs conflict: "+c, w(map[string]interface{}{"conflicts": model.Conflicts, "leaf_conflicts": model.LeafConflicts}))
 			}
 		}
 	case err != nil:
